@@ -40,8 +40,12 @@ ALL_DT = dict(DTYPES, int32=torch.int32, int64=torch.int64, complex64=torch.comp
 NAME_OF = {v: k for k, v in ALL_DT.items()}
 
 PRIMARY_KW = {"LocalVolatilityStock": {"sigma_fn": lambda t, s: torch.full_like(s, 0.2)}}
-DERIVATIVES = ("european", "lookback", "european_binary", "american_binary", "forward_start", "variance_swap")
-OPTION_KINDS = ("european", "lookback", "european_binary", "american_binary")
+CALLS = ("european", "lookback", "european_binary", "american_binary")
+PUTS = tuple(k + "_put" for k in CALLS)                     # the same classes with call=False
+DERIVATIVES = CALLS + ("forward_start", "variance_swap") + PUTS
+OPTION_KINDS = CALLS + PUTS
+BS_LISTABLE = CALLS + ("european_put", "european_binary_put")   # BlackScholes prices these
+COST = 1e-4        # proportional transaction cost of the primaries: the cost terms of the P&L are exercised
 HAS_VOL = {k for k, v in INSTRUMENTS.items() if v["vol"]}
 DT_STEP = 1 / 250
 
@@ -54,6 +58,10 @@ NONDEFAULT_INIT = {"geometric_brownian": [1.3], "cir": [0.07], "heston": [1.3, 0
 def _derivative(kind, p):
     import pfhedge.instruments as I
     m = 2 * DT_STEP
+    if kind in PUTS:
+        cls = {"european": I.EuropeanOption, "lookback": I.LookbackOption, "european_binary": I.EuropeanBinaryOption,
+               "american_binary": I.AmericanBinaryOption}[kind[:-4]]
+        return cls(p, call=False, maturity=m)
     if kind == "european":
         return I.EuropeanOption(p, maturity=m)
     if kind == "lookback":
@@ -218,11 +226,11 @@ class World:
                 kw["dtype"] = DTYPES[ctor[1]]
             if ctor[2] is not None:
                 kw["device"] = torch.device(ctor[2])
-            self.p = getattr(I, self.cfg["primary"])(dt=DT_STEP, **kw)
+            self.p = getattr(I, self.cfg["primary"])(dt=DT_STEP, cost=COST, **kw)
             self.d = _derivative(self.cfg["derivative"], self.p)
             # a second instrument of the same class that declares float32, and a derivative on it
             kwq = dict(PRIMARY_KW.get(self.cfg["primary"], {}))
-            self.q = getattr(I, self.cfg["primary"])(dt=DT_STEP, dtype=DTYPES[Q_DECLARED], **kwq)
+            self.q = getattr(I, self.cfg["primary"])(dt=DT_STEP, cost=COST, dtype=DTYPES[Q_DECLARED], **kwq)
             self.dq = _derivative(self.cfg["derivative"], self.q)
             n = len(self.history) - 1
             full_reads = self.cfg.get("reads", "full") == "full"
@@ -591,7 +599,7 @@ def check_state(ctx, cfg, history, world, level):
         query(dsite + ".payoff", "payoff", lambda: d.payoff(), D)
         listed = False
         # documented listing: BlackScholes pricer (needs an option type and an underlier with a volatility)
-        if cfg["derivative"] in OPTION_KINDS and cfg["primary"] in HAS_VOL:
+        if cfg["derivative"] in BS_LISTABLE and cfg["primary"] in HAS_VOL:
             d.list(_bs_pricer())
             listed = query(dsite + ".spot", "listed_price", lambda: d.spot, D) is not None
             if not listed:
@@ -740,6 +748,42 @@ def dtype_history(ctx, block):
 
 
 @family
+def ctor_rejects(ctx, block):
+    """Constructors: 'A instrument of specific dtype/device can be constructed by passing a torch.dtype' and
+    'non-floating dtypes are rejected': Class(dtype=<non-floating>) raises TypeError; floating dtypes are declared."""
+    import pfhedge.instruments as I
+    prim = block["primary"]
+    for name in block["dtypes"]:
+        kw = dict(PRIMARY_KW.get(prim, {}))
+        ctx.tick(1, nontrivial=1)
+        mini = {"primary": prim, "dtypes": [name]}
+        try:
+            inst = getattr(I, prim)(dtype=ALL_DT[name], **kw)
+        except TypeError:
+            if name in DM.NONFLOAT:
+                ctx.add("rejected_casts_checked", 1)
+                continue
+            raise
+        except HarnessError:
+            raise
+        except Exception as e:  # noqa: BLE001
+            ctx.violation(prim + ".__init__", f"ctor_wrong_exception:{type(e).__name__}:{name}",
+                          f"{prim}(dtype={name}) raised {type(e).__name__}: {str(e)[:120]}",
+                          observed=type(e).__name__, expected="TypeError" if name in DM.NONFLOAT else "instrument",
+                          block=mini)
+            continue
+        if name in DM.NONFLOAT:
+            ctx.violation(prim + ".__init__", f"ctor_nonfloat_accepted:{name}",
+                          f"{prim}(dtype=torch.{name}) was constructed (declares {inst.dtype}); non-floating dtypes "
+                          f"are to be rejected with TypeError", observed=str(inst.dtype), expected="TypeError",
+                          block=mini)
+        elif inst.dtype != ALL_DT[name]:
+            ctx.violation(prim + ".__init__", f"ctor_declares_other_dtype:{name}",
+                          f"{prim}(dtype=torch.{name}) declares {inst.dtype}", observed=str(inst.dtype),
+                          expected=name, block=mini)
+
+
+@family
 def batch(ctx, block):
     for b in block["blocks"]:
         prev = (ctx._family, ctx._block)
@@ -769,6 +813,8 @@ def run(ctx):
     ctx.assume("user code (pricer of the listed option = documented BlackScholes pricer, hedger model = nn.Linear "
                "cast to the instrument's dtype) stands for 'a hedger cast to the same dtype'")
     primaries = list(INSTRUMENTS)
+    for prim in primaries:
+        ctx.run("ctor_rejects", {"primary": prim, "dtypes": list(DM.FLOATS) + list(DM.NONFLOAT)})
     blocks = []
     if ctx.quick:
         # every primary class to a fixpoint with one derivative class each (all six classes covered),
@@ -795,6 +841,8 @@ def run(ctx):
     else:
         for prim in primaries:
             for der in DERIVATIVES:
+                if der in PUTS and prim not in ("BrownianStock", "HestonStock"):
+                    continue      # the payoff functions do not depend on the primary class
                 for default0 in ("float32", "float64"):
                     if default0 == "float64" and der not in ("european", "variance_swap"):
                         continue
